@@ -14,6 +14,7 @@ names=("$@"); if [ ${#names[@]} -eq 0 ]; then names=($(ls -d $VERIF/seeded/*/ | 
 one() {
   local name=$1 dir="$SCRATCH/$1" out="$SCRATCH/$1.result"
   : > "$out"
+  [ -f "$VERIF/seeded/$name/patch.diff" ] || { echo "$name - no-change-delivered" >> "$out"; return; }
   git -C $REPO worktree remove --force "$dir" >/dev/null 2>&1; rm -rf "$dir"
   git -C $REPO worktree add -q --detach "$dir" HEAD || { echo "$name worktree-failed" >> "$out"; return; }
   cp $REPO/Cargo.lock "$dir/" 2>/dev/null
